@@ -174,16 +174,84 @@ theorem env0_lookup_some (n : Name) (ps : List Name) (h1 : n ≠ selfName) (h3 :
   obtain ⟨v, hv⟩ := lookup_bindArgs_some n ps 0 h3
   exact ⟨v, by rw [env0, lookup_cons_ne _ _ _ _ h1]; exact lookup_append_some _ _ _ _ hv⟩
 
+theorem applySer_length : ∀ (fs : List Bool) (vs : List Val), (applySer fs vs).length = vs.length
+  | _, [] => by simp [applySer]
+  | [], v :: vs => by simp [applySer, applySer_length [] vs]
+  | f :: fs, v :: vs => by simp [applySer, applySer_length fs vs]
+
+/-- the serialize calls lose nothing: different value lists give different dict values -/
+theorem applySer_inj : ∀ (fs : List Bool) (a b : List Val), applySer fs a = applySer fs b → a = b
+  | _, [], [], _ => rfl
+  | fs, [], y :: b, h => by cases fs <;> simp [applySer] at h
+  | fs, x :: a, [], h => by cases fs <;> simp [applySer] at h
+  | [], x :: a, y :: b, h => by
+    simp only [applySer, List.cons.injEq] at h
+    rw [h.1, applySer_inj [] a b h.2]
+  | f :: fs, x :: a, y :: b, h => by
+    simp only [applySer, List.cons.injEq] at h
+    have hx : x = y := by
+      cases f
+      · simpa using h.1
+      · simpa using h.1
+    rw [hx, applySer_inj fs a b h.2]
+
+theorem text_not_mem_applySer_argVals : ∀ (fs : List Bool) (n k : Nat), Val.text ∉ applySer fs (argVals k n)
+  | _, 0, _ => by simp [argVals, applySer]
+  | [], n + 1, k => by
+    simp only [argVals, applySer, List.mem_cons, not_or]
+    exact ⟨fun h => Val.noConfusion h, text_not_mem_applySer_argVals [] n (k + 1)⟩
+  | f :: fs, n + 1, k => by
+    simp only [argVals, applySer, List.mem_cons, not_or]
+    refine ⟨?_, text_not_mem_applySer_argVals fs n (k + 1)⟩
+    cases f <;> simp
+
+/-- a value read from the environment shows up in the dict, plain or serialized -/
+theorem mem_applySer (v : Val) : ∀ (fs : List Bool) (vs : List Val), v ∈ vs → v ∈ applySer fs vs ∨ Val.ser v ∈ applySer fs vs
+  | _, [], h => by simp at h
+  | [], x :: vs, h => by
+    rcases List.mem_cons.mp h with e | h'
+    · left; simp [applySer, e]
+    · rcases mem_applySer v [] vs h' with h2 | h2
+      · left; simp [applySer, h2]
+      · right; simp [applySer, h2]
+  | f :: fs, x :: vs, h => by
+    rcases List.mem_cons.mp h with e | h'
+    · cases f
+      · left; simp [applySer, e]
+      · right; simp [applySer, e]
+    · rcases mem_applySer v fs vs h' with h2 | h2
+      · left; simp [applySer, h2]
+      · right; simp [applySer, h2]
+
+theorem ser_text_not_mem_applySer_argVals : ∀ (fs : List Bool) (n k : Nat), Val.ser Val.text ∉ applySer fs (argVals k n)
+  | _, 0, _ => by simp [argVals, applySer]
+  | [], n + 1, k => by
+    simp only [argVals, applySer, List.mem_cons, not_or]
+    exact ⟨fun h => Val.noConfusion h, ser_text_not_mem_applySer_argVals [] n (k + 1)⟩
+  | f :: fs, n + 1, k => by
+    simp only [argVals, applySer, List.mem_cons, not_or]
+    refine ⟨?_, ser_text_not_mem_applySer_argVals fs n (k + 1)⟩
+    cases f <;> simp
+
+/-- every name bound in the environment can be read -/
+theorem readAll_ok_of_bound (env : Env) : ∀ (ps : List Name), (∀ p ∈ ps, ∃ v, env.lookup p = some v) → ∃ vals, readAll env ps = .ok vals
+  | [], _ => ⟨[], rfl⟩
+  | p :: ps, h => by
+    obtain ⟨v, hv⟩ := h p (by simp)
+    obtain ⟨vs, hvs⟩ := readAll_ok_of_bound env ps (fun q hq => h q (by simp [hq]))
+    exact ⟨v :: vs, by simp [readAll, lookupVal, hv, hvs]⟩
+
 /-- the body sends what the property demands when the `query` local is no parameter and no
-    parameter shadows `gql` or the result class -/
-theorem runBody_ok (sub : Bool) (L : Locals) (ret : Name) (wires ps : List Name)
+    parameter shadows `gql`, the result class or the serialize function in use -/
+theorem runBody_ok (sub : Bool) (L : Locals) (ret : Name) (wires : List Name) (flags : List Bool) (ps : List Name)
     (hq : L.q ∉ ps) (hqs : L.q ≠ selfName) (hself : selfName ∉ ps) (hnd : ps.Nodup)
     (hvq : L.v ≠ L.q) (hg : gqlName ∉ ps)
     (hr : ret ∉ ps) (hr1 : ret ≠ selfName) (hr2 : ret ≠ kwargsName)
-    (hrq : ret ≠ L.q) (hrv : ret ≠ L.v) (hrr : ret ≠ L.r) (hrd : ret ≠ L.d) :
-    runBody sub L ret wires ps = .ok
-      ⟨.text, .dict wires (argVals 0 ps.length),
-       .parsed (.data (.resp .text (.dict wires (argVals 0 ps.length))))⟩ := by
+    (hrq : ret ≠ L.q) (hrv : ret ≠ L.v) (hrr : ret ≠ L.r) (hrd : ret ≠ L.d)
+    (hser : flags.any id = false ∨ serName ∉ ps) (hsq : serName ≠ L.q) :
+    runBody sub L ret wires flags ps ps = .ok
+      ⟨.text, .dict wires (applySer flags (argVals 0 ps.length)),
+       .parsed (.data (.resp .text (.dict wires (applySer flags (argVals 0 ps.length)))))⟩ := by
   have hpre : ∀ p ∈ ps, ([(L.q, Val.text), (selfName, Val.selfV)] : Env).lookup p = none := by
     intro p hp
     have h1 : (p == L.q) = false := by
@@ -209,50 +277,65 @@ theorem runBody_ok (sub : Bool) (L : Locals) (ret : Name) (wires ps : List Name)
   have b3 : (ret == L.v) = false := by simpa using hrv
   have b4 : (ret == L.r) = false := by simpa using hrr
   have b5 : (ret == L.d) = false := by simpa using hrd
-  cases sub <;>
-    simp [runBody, hgql, hgs, hr', lookupVal, List.lookup, hq', validateWith, hret0, b1, b2, b3, b4, b5]
+  have s1 : (serName == L.q) = false := by simpa using hsq
+  have s2 : (serName == selfName) = false := by decide
+  rcases hser with hany | hsn
+  · cases sub <;>
+      simp [runBody, hgql, hgs, hr', lookupVal, List.lookup, hq', validateWith, hret0, b1, b2, b3, b4, b5, hany]
+  · have hs0 := tail_none serName (by decide) hsn
+    cases sub <;>
+      simp [runBody, hgql, hgs, hr', lookupVal, List.lookup, hq', validateWith, hret0, b1, b2, b3, b4, b5, s1, s2, hs0]
 
 /-- a parameter called `gql` makes every call fail before anything is sent -/
-theorem runBody_gql (sub : Bool) (L : Locals) (ret : Name) (wires ps : List Name) (hg : gqlName ∈ ps) :
-    runBody sub L ret wires ps = .error (.notCallable gqlName) := by
+theorem runBody_gql (sub : Bool) (L : Locals) (ret : Name) (wires : List Name) (flags : List Bool) (reads ps : List Name)
+    (hg : gqlName ∈ ps) :
+    runBody sub L ret wires flags reads ps = .error (.notCallable gqlName) := by
   obtain ⟨v, hv⟩ := env0_lookup_some gqlName ps (by decide) hg
   simp only [env0] at hv
   simp [runBody, hv]
 
-/-- whatever happens, the dict handed to `execute` holds what reading the parameters gave -/
-theorem runBody_variables (sub : Bool) (L : Locals) (ret : Name) (wires ps : List Name) (s : Sent)
-    (h : runBody sub L ret wires ps = .ok s) :
-    ∃ vals, readAll ((L.q, Val.text) :: (selfName, Val.selfV) :: (bindArgs 0 ps ++ [(kwargsName, Val.kwargsV)])) ps = .ok vals ∧
-      s.variables = .dict wires vals := by
+/-- whatever happens, the dict handed to `execute` holds what reading the names gave (serialized where asked) -/
+theorem runBody_variables (sub : Bool) (L : Locals) (ret : Name) (wires : List Name) (flags : List Bool) (reads ps : List Name) (s : Sent)
+    (h : runBody sub L ret wires flags reads ps = .ok s) :
+    ∃ vals, readAll ((L.q, Val.text) :: (selfName, Val.selfV) :: (bindArgs 0 ps ++ [(kwargsName, Val.kwargsV)])) reads = .ok vals ∧
+      s.variables = .dict wires (applySer flags vals) ∧
+      (flags.any id = true → ((L.q, Val.text) :: (selfName, Val.selfV) :: (bindArgs 0 ps ++ [(kwargsName, Val.kwargsV)]) : Env).lookup serName = none) := by
   unfold runBody at h
   cases hg : ((selfName, Val.selfV) :: (bindArgs 0 ps ++ [(kwargsName, Val.kwargsV)]) : Env).lookup gqlName with
   | some x => simp [hg] at h
   | none =>
   simp only [hg] at h
-  cases hr : readAll ((L.q, Val.text) :: (selfName, Val.selfV) :: (bindArgs 0 ps ++ [(kwargsName, Val.kwargsV)])) ps with
+  cases hr : readAll ((L.q, Val.text) :: (selfName, Val.selfV) :: (bindArgs 0 ps ++ [(kwargsName, Val.kwargsV)])) reads with
   | error e => simp [hr] at h
   | ok vals =>
-    refine ⟨vals, rfl, ?_⟩
-    simp only [hr, lookupVal_head] at h
-    cases hq : lookupVal ((L.v, Val.dict wires vals) :: (L.q, Val.text) :: (selfName, Val.selfV) :: (bindArgs 0 ps ++ [(kwargsName, Val.kwargsV)])) L.q with
-    | error e => simp [hq] at h
-    | ok q =>
-      simp only [hq] at h
-      cases sub
-      · simp only [lookupVal_head, Bool.false_eq_true, if_false] at h
-        split at h
-        · exact absurd h (by simp)
-        · simp only [Except.ok.injEq] at h
-          rw [← h]
-      · simp only [lookupVal_head, if_true] at h
-        split at h
-        · exact absurd h (by simp)
-        · simp only [Except.ok.injEq] at h
-          rw [← h]
+    simp only [hr] at h
+    split at h
+    · exact absurd h (by simp)
+    · rename_i hS
+      refine ⟨vals, rfl, ?_, ?_⟩
+      · simp only [lookupVal_head] at h
+        cases hq : lookupVal ((L.v, Val.dict wires (applySer flags vals)) :: (L.q, Val.text) :: (selfName, Val.selfV) :: (bindArgs 0 ps ++ [(kwargsName, Val.kwargsV)])) L.q with
+        | error e => simp [hq] at h
+        | ok q =>
+          simp only [hq] at h
+          cases sub
+          · simp only [lookupVal_head, Bool.false_eq_true, if_false] at h
+            split at h
+            · exact absurd h (by simp)
+            · simp only [Except.ok.injEq] at h
+              rw [← h]
+          · simp only [lookupVal_head, if_true] at h
+            split at h
+            · exact absurd h (by simp)
+            · simp only [Except.ok.injEq] at h
+              rw [← h]
+      · intro hany
+        simp only [hany, Bool.true_and, Bool.not_eq_true, Option.isSome_eq_false_iff, Option.isNone_iff_eq_none] at hS
+        exact hS
 
 /-- a call that succeeds did not find the result class shadowed by a parameter -/
-theorem runBody_ret (sub : Bool) (L : Locals) (ret : Name) (wires ps : List Name) (s : Sent)
-    (h : runBody sub L ret wires ps = .ok s) (hr1 : ret ≠ selfName)
+theorem runBody_ret (sub : Bool) (L : Locals) (ret : Name) (wires : List Name) (flags : List Bool) (reads ps : List Name) (s : Sent)
+    (h : runBody sub L ret wires flags reads ps = .ok s) (hr1 : ret ≠ selfName)
     (hrq : ret ≠ L.q) (hrv : ret ≠ L.v) (hrr : ret ≠ L.r) (hrd : ret ≠ L.d) : ret ∉ ps := by
   intro hm
   obtain ⟨x, hx⟩ := env0_lookup_some ret ps hr1 hm
@@ -262,23 +345,73 @@ theorem runBody_ret (sub : Bool) (L : Locals) (ret : Name) (wires ps : List Name
   | some x => simp [hg] at h
   | none =>
   simp only [hg] at h
-  cases hr : readAll ((L.q, Val.text) :: (selfName, Val.selfV) :: (bindArgs 0 ps ++ [(kwargsName, Val.kwargsV)])) ps with
+  cases hr : readAll ((L.q, Val.text) :: (selfName, Val.selfV) :: (bindArgs 0 ps ++ [(kwargsName, Val.kwargsV)])) reads with
   | error e => simp [hr] at h
   | ok vals =>
-    simp only [hr, lookupVal_head] at h
-    cases hq : lookupVal ((L.v, Val.dict wires vals) :: (L.q, Val.text) :: (selfName, Val.selfV) :: (bindArgs 0 ps ++ [(kwargsName, Val.kwargsV)])) L.q with
-    | error e => simp [hq] at h
-    | ok q =>
-      simp only [hq] at h
-      cases sub
-      · simp only [lookupVal_head, Bool.false_eq_true, if_false, validateWith,
-          lookup_cons_ne _ _ _ _ hrd, lookup_cons_ne _ _ _ _ hrr, lookup_cons_ne _ _ _ _ hrv,
-          lookup_cons_ne _ _ _ _ hrq, hx] at h
-        exact absurd h (by simp)
-      · simp only [lookupVal_head, if_true, validateWith,
-          lookup_cons_ne _ _ _ _ hrd, lookup_cons_ne _ _ _ _ hrv,
-          lookup_cons_ne _ _ _ _ hrq, hx] at h
-        exact absurd h (by simp)
+    simp only [hr] at h
+    split at h
+    · exact absurd h (by simp)
+    · simp only [lookupVal_head] at h
+      cases hq : lookupVal ((L.v, Val.dict wires (applySer flags vals)) :: (L.q, Val.text) :: (selfName, Val.selfV) :: (bindArgs 0 ps ++ [(kwargsName, Val.kwargsV)])) L.q with
+      | error e => simp [hq] at h
+      | ok q =>
+        simp only [hq] at h
+        cases sub
+        · simp only [lookupVal_head, Bool.false_eq_true, if_false, validateWith,
+            lookup_cons_ne _ _ _ _ hrd, lookup_cons_ne _ _ _ _ hrr, lookup_cons_ne _ _ _ _ hrv,
+            lookup_cons_ne _ _ _ _ hrq, hx] at h
+          exact absurd h (by simp)
+        · simp only [lookupVal_head, if_true, validateWith,
+            lookup_cons_ne _ _ _ _ hrd, lookup_cons_ne _ _ _ _ hrv,
+            lookup_cons_ne _ _ _ _ hrq, hx] at h
+          exact absurd h (by simp)
+
+/-- `reads_bound`: when every name the dict values read is a parameter, no read of the body can hit an
+    unbound name - the body never raises NameError, in or outside the finding regions -/
+theorem runBody_no_nameError (sub : Bool) (L : Locals) (ret : Name) (wires : List Name) (flags : List Bool) (reads ps : List Name)
+    (hsub : ∀ p ∈ reads, p ∈ ps) (n : Name) :
+    runBody sub L ret wires flags reads ps ≠ .error (.nameError n) := by
+  have hb : ∀ p ∈ reads, ∃ v, ((L.q, Val.text) :: (selfName, Val.selfV) :: (bindArgs 0 ps ++ [(kwargsName, Val.kwargsV)]) : Env).lookup p = some v := by
+    intro p hp
+    by_cases e1 : p = L.q
+    · exact ⟨.text, by simp [List.lookup, e1]⟩
+    · rw [lookup_cons_ne _ _ _ _ e1]
+      by_cases e2 : p = selfName
+      · exact ⟨.selfV, by simp [List.lookup, e2]⟩
+      · have := env0_lookup_some p ps e2 (hsub p hp)
+        simpa [env0] using this
+  obtain ⟨vals, hvals⟩ := readAll_ok_of_bound _ reads hb
+  have hq' : ∀ (x : Val) (env : Env), ∃ v, lookupVal ((L.v, x) :: (L.q, Val.text) :: env) L.q = .ok v := by
+    intro x env
+    by_cases e : L.q = L.v
+    · exact ⟨x, by simp [lookupVal, List.lookup, e]⟩
+    · have : (L.q == L.v) = false := by simpa using e
+      exact ⟨.text, by simp [lookupVal, List.lookup, this]⟩
+  intro h
+  unfold runBody at h
+  cases hg : ((selfName, Val.selfV) :: (bindArgs 0 ps ++ [(kwargsName, Val.kwargsV)]) : Env).lookup gqlName with
+  | some x => simp [hg] at h
+  | none =>
+  simp only [hg, hvals] at h
+  split at h
+  · exact absurd h (by simp)
+  · obtain ⟨q, hq⟩ := hq' (Val.dict wires (applySer flags vals)) ((selfName, Val.selfV) :: (bindArgs 0 ps ++ [(kwargsName, Val.kwargsV)]))
+    simp only [hq, lookupVal_head] at h
+    cases sub
+    · simp only [Bool.false_eq_true, if_false, validateWith] at h
+      split at h
+      · rename_i x e heq
+        injection h with h'
+        subst h'
+        split at heq <;> simp at heq
+      · exact absurd h (by simp)
+    · simp only [if_true, validateWith] at h
+      split at h
+      · rename_i x e heq
+        injection h with h'
+        subst h'
+        split at heq <;> simp at heq
+      · exact absurd h (by simp)
 
 /-! ## B. class scope -/
 
